@@ -100,14 +100,16 @@ impl Cell {
     }
 }
 
-pub fn all_cells() -> Vec<Cell> {
+pub const REQUIRE_NAMES: &[&str] = &["zz_ext", "zz_ext.lua", "zz.core", "lib/zz_helpers.lua", "./zz_local", "zz.a.b.lua", "zz-dash", "zz.lua.bak"];
+
+pub fn all_cells(req_a: &str, req_b: &str) -> Vec<Cell> {
     let mut out = Vec::new();
-    let flags: Vec<(Option<String>, bool)> = vec![(None, false), (Some("zz_ext".into()), false), (None, true), (Some("zz_ext.lua".into()), true)];
+    let flags: Vec<(Option<String>, bool)> = vec![(None, false), (Some(req_a.into()), false), (None, true), (Some(req_b.into()), true)];
     for (req, ns) in &flags {
         for peer in ["P1-ok", "P2-stderr-exit1", "P3-stderr-exit0", "P4-silent-exit1"] {
             out.push(Cell { mode: "run".into(), require: req.clone(), no_std: *ns, target: String::new(), peer: peer.into(), input: "present".into() });
         }
-        for target in ["O1-absent", "O2-existing", "O3-parent-missing", "O4-is-directory", "O5-component-is-file", "O6-dev-full"] {
+        for target in ["O1-absent", "O2-existing", "O2b-existing-longer", "O3-parent-missing", "O4-is-directory", "O5-component-is-file", "O6-dev-full"] {
             out.push(Cell { mode: "file".into(), require: req.clone(), no_std: *ns, target: target.into(), peer: String::new(), input: "present".into() });
         }
         out.push(Cell { mode: "stdout".into(), require: req.clone(), no_std: *ns, target: String::new(), peer: String::new(), input: "present".into() });
@@ -145,8 +147,10 @@ impl ProcObs {
     pub fn history(&self, root: &str) -> String {
         let mut s = String::new();
         s.push_str(&format!("EXIT {:?} signal={} timeout={}\n", self.exit, self.signal, self.timed_out));
-        s.push_str(&format!("STDOUT {} {:x}\n", self.stdout.len(), fnv64(normalise(root, &String::from_utf8_lossy(&self.stdout)).as_bytes())));
-        s.push_str(&format!("STDERR {} {:x}\n", self.stderr.len(), fnv64(strip_thread_id(&normalise(root, &String::from_utf8_lossy(&self.stderr))).as_bytes())));
+        let out = normalise(root, &String::from_utf8_lossy(&self.stdout));
+        s.push_str(&format!("STDOUT {} {:x}\n", out.len(), fnv64(out.as_bytes())));
+        let err = strip_thread_id(&normalise(root, &String::from_utf8_lossy(&self.stderr)));
+        s.push_str(&format!("STDERR {} {:x}\n", err.len(), fnv64(err.as_bytes())));
         for (k, v) in &self.tree_after {
             if self.tree_before.get(k) != Some(v) {
                 s.push_str(&format!("FS-DIFF {} {:?} -> {}\n", k, self.tree_before.get(k), v));
@@ -315,6 +319,16 @@ impl Runner {
                             let _ = std::fs::write(&p, b"SENTINEL: previous contents of the output file\n");
                             p
                         }
+                        "O2b-existing-longer" => {
+                            // an older, much longer output of some other program
+                            let p = format!("{}/prog.lua", outdir);
+                            let mut junk = Vec::with_capacity(400_000);
+                            while junk.len() < 400_000 {
+                                junk.extend_from_slice(b"-- stale line of a previous, longer output\n");
+                            }
+                            let _ = std::fs::write(&p, &junk);
+                            p
+                        }
                         "O3-parent-missing" => format!("{}/nodir/prog.lua", outdir),
                         "O4-is-directory" => {
                             let p = format!("{}/adir", outdir);
@@ -471,7 +485,7 @@ pub fn judge(cell: &Cell, exp: &Expected, obs: &ProcObs, root: &str, preamble: &
         return CellVerdict { violations: vs, observations: notes };
     }
 
-    let target_ok = cell.mode != "file" || matches!(cell.target.as_str(), "O1-absent" | "O2-existing");
+    let target_ok = cell.mode != "file" || matches!(cell.target.as_str(), "O1-absent" | "O2-existing" | "O2b-existing-longer");
     let peer_ok = cell.mode != "run" || cell.peer == "P1-ok";
     let should_succeed = exp.accepted && target_ok && peer_ok;
 
@@ -633,7 +647,45 @@ pub fn judge(cell: &Cell, exp: &Expected, obs: &ProcObs, root: &str, preamble: &
 // ------------------------------------------------------------------------------------
 // program sampling
 
-pub fn sample_program(seed: u64, corpus: &Corpus) -> Program {
+/// Error counts around the boundaries a driver can trip over (exit status is 8 bits wide).
+pub const ERROR_COUNTS: &[usize] = &[1, 2, 16, 127, 128, 255, 256, 257, 511, 512, 513, 1024];
+
+/// One erroneous top-level unit, repeated n times (k is substituted for `#`).
+pub const ERROR_UNITS: &[(&str, &str)] = &[
+    ("missing-import", "use missing_module_#\n"),
+    ("bad-definition", "bad# :: )\n"),
+    ("dangling-operator-in-fn", "f# :: fn do\n    1 +\nend\n"),
+    ("missing-comma-in-fn", "f# :: fn do\n    x := (1 2)\nend\n"),
+    ("bad-blob-field", "B# :: blob {\n    a: ,\n}\n"),
+    ("if-without-condition", "f# :: fn do\n    if do\n    end\nend\n"),
+    ("bad-enum", "E# :: enum\n    A (,\nend\n"),
+    ("unresolved-name-in-fn", "f# :: fn do\n    zz_nope_#\nend\n"),
+    ("type-error-in-fn", "f# :: fn do\n    x: int = \"s\"\nend\n"),
+    ("bad-case-branch", "f# :: fn do\n    case 1 do\n        + 2 do\n        end\n    end\nend\n"),
+    ("stray-end", "end\n"),
+    ("else-without-if", "f# :: fn do\n    else do\n    end\nend\n"),
+];
+
+pub fn many_errors_program(n: usize, kind: usize) -> Program {
+    let main = format!("{}/many/main.sy", SIM_ROOT);
+    let (name, unit) = ERROR_UNITS[kind % ERROR_UNITS.len()];
+    let mut text = String::new();
+    for k in 0..n {
+        text.push_str(&unit.replace('#', &k.to_string()));
+    }
+    text.push_str("start :: fn do\nend\n");
+    let mut files = BTreeMap::new();
+    files.insert(main.clone(), text);
+    Program { files, main, label: format!("many-errors:{}x{}", n, name), std_free: false }
+}
+
+pub fn sample_program(seed: u64, index: u64, corpus: &Corpus) -> Program {
+    // stratified: every tenth program is rejected with a chosen number of errors
+    if index % 10 == 3 {
+        let k = (index / 10) as usize;
+        // walk the (count, unit) grid along a diagonal so that both vary from program to program
+        return many_errors_program(ERROR_COUNTS[k % ERROR_COUNTS.len()], k + k / ERROR_COUNTS.len());
+    }
     let mut r = Rng::sub(seed, "layerb-program");
     // a mix: fault-free and faulted corpus programs, generated projects, long literals
     let mut stats = crate::props::Stats::default();
@@ -710,12 +762,11 @@ pub fn run_c20(tier: &str, batch_seed: u64) -> LayerBResult {
         no_std_equiv_checked: 0,
     }));
     let threads = 16u64;
-    let cells = Arc::new(all_cells());
+    let n_cells = all_cells("a", "b").len();
     let preamble = Arc::new(crate::props::preamble_text());
     let mut hs = Vec::new();
     for t in 0..threads {
         let agg = agg.clone();
-        let cells = cells.clone();
         let preamble = preamble.clone();
         hs.push(std::thread::Builder::new().stack_size(256 << 20).spawn(move || {
             exec::install_panic_hook();
@@ -726,7 +777,9 @@ pub fn run_c20(tier: &str, batch_seed: u64) -> LayerBResult {
             let mut i = t;
             while i < n_programs {
                 let seed = splitmix64(batch_seed ^ tag("C20-layerB") ^ splitmix64(i));
-                let prog = sample_program(seed, &corpus);
+                let prog = sample_program(seed, i, &corpus);
+                let mut rq = Rng::sub(seed, "require-names");
+                let cells = all_cells(*rq.pick(REQUIRE_NAMES), *rq.pick(REQUIRE_NAMES));
                 let root = runner.layout(&prog, "p", false);
                 let mut exp_cache: BTreeMap<(Option<String>, bool, bool), Expected> = BTreeMap::new();
                 let mut local_cells = 0u64;
@@ -857,7 +910,7 @@ pub fn run_c20(tier: &str, batch_seed: u64) -> LayerBResult {
                 .set("programs_accepted", J::u(a.accepted_programs))
                 .set("programs_rejected", J::u(a.rejected_programs))
                 .set("process_runs", J::u(a.cells_run + a.rerun_checked))
-                .set("cells_per_program", J::u(cells.len() as u64))
+                .set("cells_per_program", J::u(n_cells as u64))
                 .set("cells", per_cell)
                 .set("rerun_determinism_checked", J::u(a.rerun_checked))
                 .set("rerun_determinism_mismatches", J::u(a.rerun_mismatch))
@@ -900,6 +953,23 @@ pub fn replay(doc: &J, id: &str) -> i32 {
     let code;
     if prop == "C16" {
         code = replay_c16(doc, &prog, &runner, id);
+    } else if prop == "C07" {
+        let root = runner.layout(&prog, "p", false);
+        let cell = Cell { mode: "file".into(), require: None, no_std: lb.bool_of("no_std"), target: "O1-absent".into(), peer: String::new(), input: "present".into() };
+        let obs = runner.run_cell(&prog, &cell, &root, &[]);
+        print!("{}", obs.history(&root));
+        match judge_c07_process(&obs) {
+            Some(x) if x.id() == id => {
+                println!("REPRODUCED {}", x.id());
+                println!("{}", x.detail);
+                println!("VIOLATION property=C07 replay=<this file>");
+                code = 1;
+            }
+            other => {
+                println!("NOT-REPRODUCED {} (got {:?})", id, other.map(|x| x.id()));
+                code = 0;
+            }
+        }
     } else {
         let cell = Cell::from_json(lb.get("cell").unwrap_or(&J::obj()));
         let main_missing = cell.input == "main-missing";
@@ -1057,5 +1127,138 @@ pub fn run_c16_processes(tier: &str, batch_seed: u64) -> LayerBResult {
                 .set("hashing", J::s("real OS entropy per process (hook compiled in, seed unset), plus two fixed seeds via SYLT_VERIF_HASH_SEED"))
                 .set("wall_s", J::Num((t0.elapsed().as_secs_f64() * 10.0).round() / 10.0)),
         );
+    LayerBResult { coverage: cov, violations: r.3.iter().map(|(k, (d, n))| (k.clone(), d.clone(), *n)).collect() }
+}
+
+// ------------------------------------------------------------------------------------
+// C07 at the process level: the shipped (debug-profile) binary with the stack a user gets
+
+pub fn judge_c07_process(obs: &ProcObs) -> Option<Violation> {
+    let err = String::from_utf8_lossy(&obs.stderr).to_string();
+    if obs.timed_out {
+        return Some(Violation { prop: "C07".into(), clause: "process-hang".into(), class: "120s".into(), detail: "the sylt process did not terminate within 120 s".into() });
+    }
+    match obs.exit {
+        Some(0) | Some(1) => None,
+        Some(101) => {
+            let at = err.lines().find(|l| l.contains("panicked at")).unwrap_or("").to_string();
+            let site = at.split("panicked at ").nth(1).unwrap_or("").split(':').next().unwrap_or("").rsplit('/').next().unwrap_or("").to_string();
+            Some(Violation { prop: "C07".into(), clause: "process-panic".into(), class: site, detail: format!("the sylt process panicked (exit status 101): {}", strip_thread_id(&err).lines().take(3).collect::<Vec<_>>().join(" | ")) })
+        }
+        Some(134) | None => {
+            let class = if err.contains("overflowed its stack") { "stack-overflow" } else { "abort" };
+            Some(Violation { prop: "C07".into(), clause: "process-abort".into(), class: class.into(), detail: format!("the sylt process was aborted ({:?}): {}", obs.exit, strip_thread_id(&err).lines().filter(|l| !l.trim().is_empty()).take(2).collect::<Vec<_>>().join(" | ")) })
+        }
+        Some(c) => Some(Violation { prop: "C07".into(), clause: "process-exit".into(), class: format!("{}", c), detail: format!("unexpected exit status {}", c) }),
+    }
+}
+
+pub fn run_c07_processes(tier: &str, batch_seed: u64) -> LayerBResult {
+    let n_programs: u64 = std::env::var("SYLT_SIM_C07_PROGRAMS").ok().and_then(|v| v.parse().ok()).unwrap_or(if tier == "quick" { 1_200 } else { 60_000 });
+    if !Path::new(&sylt_bin()).exists() {
+        let mut cov = J::obj();
+        cov.put("harness.layer_b_binary_missing", J::u(1));
+        return LayerBResult { coverage: cov, violations: vec![("harness/layer-b-binary-missing".into(), J::obj().set("clause", J::s("harness")).set("class", J::s("layer-b-binary-missing")).set("detail", J::s("sylt binary not built")), 1)] };
+    }
+    let t0 = Instant::now();
+    // (programs, rejected, many-errors programs, violations)
+    let result: Arc<Mutex<(u64, u64, u64, BTreeMap<String, (J, u64)>, BTreeMap<String, u64>)>> = Arc::new(Mutex::new((0, 0, 0, BTreeMap::new(), BTreeMap::new())));
+    let threads = 16u64;
+    let mut hs = Vec::new();
+    for t in 0..threads {
+        let result = result.clone();
+        hs.push(std::thread::Builder::new().stack_size(256 << 20).spawn(move || {
+            exec::install_panic_hook();
+            let corpus = crate::corpus::load();
+            let scratch = format!("{}/{}-c07b-t{}", crate::supervisor::scratch_base(), std::process::id(), t);
+            let _ = std::fs::create_dir_all(&scratch);
+            let runner = Runner::new(&scratch);
+            let mut i = t;
+            while i < n_programs {
+                let seed = splitmix64(batch_seed ^ tag("C07-processes") ^ splitmix64(i));
+                let (prog, no_std, many) = if i % 4 == 1 {
+                    let k = (i / 4) as usize;
+                    (many_errors_program(ERROR_COUNTS[k % ERROR_COUNTS.len()], k + k / ERROR_COUNTS.len()), k % 3 == 0, true)
+                } else {
+                    let mut stats = crate::props::Stats::default();
+                    let (sc, c) = crate::worker::gen_screened(seed, &corpus, Bias::General, &mut stats);
+                    let mut files = c.files.clone();
+                    for p in &c.io_errors {
+                        files.remove(p);
+                    }
+                    (Program { files, main: c.main.clone(), label: format!("{}+{}faults", sc.family, sc.faults.len()), std_free: false }, c.no_std, false)
+                };
+                let root = runner.layout(&prog, "p", false);
+                let cell = Cell { mode: "file".into(), require: None, no_std, target: "O1-absent".into(), peer: String::new(), input: "present".into() };
+                let obs = runner.run_cell(&prog, &cell, &root, &[]);
+                let mut verdict = judge_c07_process(&obs);
+                let strict = prog.files.values().map(|t| gen::nesting_depth_strict(t)).max().unwrap_or(0);
+                let mut outside = false;
+                if let Some(vv) = &verdict {
+                    // the property bounds nesting so that native stack depth is not what is measured:
+                    // an overflow on input whose openers are never closed is outside its quantifier
+                    if vv.class == "stack-overflow" && strict > gen::MAX_NESTING {
+                        outside = true;
+                        verdict = None;
+                    }
+                }
+                let mut r = result.lock().unwrap();
+                if outside {
+                    *r.4.entry("(stack overflow on input nested deeper than the bound: not judged)".to_string()).or_insert(0) += 1;
+                }
+                r.0 += 1;
+                if obs.exit == Some(1) {
+                    r.1 += 1;
+                }
+                if many {
+                    r.2 += 1;
+                    *r.4.entry(prog.label.split('x').nth(1).unwrap_or("?").to_string()).or_insert(0) += 1;
+                }
+                if let Some(vv) = verdict {
+                    let mut doc = layer_b_doc("C07", &vv, &prog, &cell, &obs, &root, batch_seed, i);
+                    if let Some(J::Obj(m)) = doc.get("layer_b").cloned() {
+                        let mut lb = J::Obj(m);
+                        lb.put("no_std", J::Bool(no_std));
+                        doc.put("layer_b", lb);
+                    }
+                    match r.3.get_mut(&vv.id()) {
+                        Some((old, n)) => {
+                            *n += 1;
+                            // prefer the smallest input as the representative
+                            let size = |d: &J| d.get("layer_b").and_then(|l| l.get("files")).and_then(|f| f.as_obj()).map(|o| o.values().map(|v| v.as_str().unwrap_or("").len()).sum::<usize>()).unwrap_or(usize::MAX);
+                            if size(&doc) < size(old) {
+                                *old = doc;
+                            }
+                        }
+                        None => {
+                            r.3.insert(vv.id(), (doc, 1));
+                        }
+                    }
+                }
+                drop(r);
+                i += threads;
+            }
+            let _ = std::fs::remove_dir_all(&scratch);
+        }).unwrap());
+    }
+    for h in hs {
+        let _ = h.join();
+    }
+    let r = result.lock().unwrap();
+    let mut units = J::obj();
+    for (k, n) in &r.4 {
+        units.put(k, J::u(*n));
+    }
+    let cov = J::obj().set("add_evaluations", J::u(r.0)).set(
+        "process_level",
+        J::obj()
+            .set("programs", J::u(r.0))
+            .set("rejected", J::u(r.1))
+            .set("many_errors_programs", J::u(r.2))
+            .set("many_errors_units", units)
+            .set("error_counts", J::Arr(ERROR_COUNTS.iter().map(|c| J::u(*c as u64)).collect()))
+            .set("binary", J::s(&format!("{} (dev profile as the project's Makefile ships it, main-thread stack of the OS default 8 MiB)", sylt_bin())))
+            .set("wall_s", J::Num((t0.elapsed().as_secs_f64() * 10.0).round() / 10.0)),
+    );
     LayerBResult { coverage: cov, violations: r.3.iter().map(|(k, (d, n))| (k.clone(), d.clone(), *n)).collect() }
 }
